@@ -194,3 +194,38 @@ func VH_C13_keyfile() {
 	}
 	vReach("end")
 }
+
+// H-C13-fragment: Receive of a fragment whose index and total are arbitrary
+// five-digit numbers and whose piece is 300 bytes long, in any message state
+// of the fragment automaton (empty context or one fragment stored): no crash,
+// and the memory allocated is bounded by the input, not by the numbers the
+// peer announces.
+//
+// vh: prop=C13 expect=end unwind=400 timeout=60000 alloc_alpha=64 alloc_beta=65536
+func VH_C13_fragment() {
+	v3 := vChoose("v3", 2) == 1
+	c := vhFragReceiver(v3)
+	if vChoose("ctx", 2) == 1 {
+		c.fragmentationContext = fragmentationContext{frag: []byte("abcd"), currentIndex: 1, currentLen: vU16("ctxLen")}
+		vAssume(c.fragmentationContext.currentLen >= 2)
+	}
+	kd := vhDigits("k", 5)
+	nd := vhDigits("n", 5)
+	pre := "?OTR,"
+	if v3 {
+		pre = "?OTR|00000122|00000245,"
+	}
+	msg := []byte(pre)
+	msg = append(msg, kd...)
+	msg = append(msg, ',')
+	msg = append(msg, nd...)
+	msg = append(msg, ',')
+	for i := 0; i < 300; i++ {
+		msg = append(msg, 'A')
+	}
+	msg = append(msg, ',')
+	plain, toSend, _ := c.Receive(msg)
+	vObserve("frag", plain, len(toSend), len(c.fragmentationContext.frag), cap(c.fragmentationContext.frag) <= 4096)
+	vAssert("retained-buffer-bounded-by-input", cap(c.fragmentationContext.frag) <= 4096)
+	vReach("end")
+}
